@@ -124,8 +124,15 @@ func safe(f func() error) (err error) {
 }
 
 func runCrash(rng *rand.Rand, n int, out *Out, _ []string) {
+	// a few LARGE operations per run (crash_large.go): every 30th history is followed by one, the shapes in rotation
+	// (the seed decides where the rotation starts), at most 4 + n/100 of them
+	large, first := 0, rng.Intn(len(largeShapes))
 	for i := 0; i < n; i++ {
 		crashHistory(rng, out)
+		if i%30 == 11 && large < 4+n/100 {
+			crashLarge(rng, out, largeShapes[(first+large)%len(largeShapes)], 28)
+			large++
+		}
 	}
 }
 
